@@ -522,7 +522,7 @@ func (hsClient) Gen(r *Rand, tier string, emit func(string)) {
 	// 6. oversized lines
 	sizes := []int{4000, 4094, 4095, 4096, 4097, 4098, 8192, 8193, 65536}
 	if thorough {
-		sizes = append(sizes, 1<<20, 4<<20)
+		sizes = append(sizes, 262144, 1<<20)
 	} else {
 		sizes = append(sizes, 1<<20)
 	}
